@@ -219,3 +219,373 @@ Proof.
     apply D3'. apply in_map; auto.
   - intros g Hg. apply in_app_or in Hg as [Hg|[<-|[]]]; auto.
 Qed.
+
+(* a state in which the previous owner has just left and `__release__` is about to run *)
+Record pre_release (s : st) : Prop := {
+  pA : forall a, ph s a = Waiting <-> In a (waiting s);
+  pB : NoDup (waiting s);
+  pW : woken s = [];
+  pZ : depth s = 0;
+  pI : forall a n, ph s a <> Inside n;
+  pD1 : StronglySorted lt (grants s);
+  pD2 : forall g b, In g (grants s) -> In b (waiting s) -> g < tick s b;
+  pD3 : StronglySorted lt (map (tick s) (waiting s));
+  pD4 : forall g, In g (grants s) -> g < ntick s;
+  pD5 : forall b, In b (waiting s) -> tick s b < ntick s
+}.
+
+Lemma inv_release s : pre_release s -> inv (release s).
+Proof.
+  intros [A B W Z I D1 D2 D3 D4 D5]. unfold release.
+  destruct (waiting s) as [|b r] eqn:Ew.
+  - constructor; unfold pendq, inv_owner; cbn; rewrite ?W; cbn; auto; try constructor;
+      try (intros; contradiction).
+
+  - constructor; unfold pendq, inv_owner; cbn; rewrite ?W; cbn; auto.
+    split.
+    + intros a n Ha. exfalso. eapply I; eauto.
+    + rewrite (proj2 (A b)) by (now left). auto.
+Qed.
+
+Lemma set_ph_release s a p : set_ph (release s) a p = release (set_ph s a p).
+Proof. unfold release, set_ph. cbn. destruct (waiting s); reflexivity. Qed.
+
+Lemma rem1_app_notin a l1 l2 : ~ In a l1 -> rem1 a (l1 ++ l2) = l1 ++ rem1 a l2.
+Proof.
+  induction l1 as [|c r IH]; cbn; auto. intros H.
+  destruct (Nat.eqb_spec c a) as [->|N]; [exfalso; auto|]. f_equal. apply IH. auto.
+Qed.
+
+Lemma inv_exit s a s' : inv s -> step s (Exit a) = Some s' -> inv s'.
+Proof.
+  intros I H. cbn in H. destruct (ph s a) as [| |[|n]] eqn:Pa; try discriminate.
+  destruct I as [A B C D1 D2 D3 D4 D5]. unfold inv_owner in C.
+  destruct (owner s) as [o|] eqn:Eo.
+  2:{ destruct C as (_ & _ & _ & C). exfalso. eapply C; eauto. }
+  destruct C as [C1 C2]. assert (o = a) as -> by (symmetry; eapply C1; eauto).
+  rewrite Pa in C2. destruct C2 as (Ed & _ & W & G).
+  assert (Na : ~ In a (pendq s)) by (rewrite <- A; congruence).
+  unfold pendq in *. rewrite W in *. cbn in *. rewrite <- Ed in H. cbn in H.
+  destruct n as [|m]; cbn in H; injection H as <-.
+  - apply inv_release. constructor; cbn; auto.
+    + intros b. destruct (Nat.eq_dec b a) as [->|Nb].
+      * rewrite upd_same. split; [discriminate|tauto].
+      * rewrite upd_other by auto. apply A.
+    + intros b k. destruct (Nat.eq_dec b a) as [->|Nb]; [rewrite upd_same; discriminate|].
+      rewrite upd_other by auto. intros Hb. apply Nb. eapply C1; eauto.
+  - constructor; unfold pendq, inv_owner; cbn; rewrite ?Eo, ?W; cbn; auto.
+    + intros b. destruct (Nat.eq_dec b a) as [->|Nb].
+      * rewrite upd_same. split; [discriminate|tauto].
+      * rewrite upd_other by auto. apply A.
+    + split.
+      * intros b k. destruct (Nat.eq_dec b a) as [->|Nb]; auto. rewrite upd_other by auto. apply C1.
+      * rewrite upd_same. repeat split; auto; lia.
+Qed.
+
+Lemma inv_foreign s a s' : inv s -> step s (DeliverForeign a) = Some s' -> inv s'.
+Proof.
+  intros I H. cbn in H. destruct (ph s a) eqn:Pa; try discriminate. injection H as <-.
+  unfold unsubscribe. destruct (mem a (woken s)) eqn:M.
+  - (* the designated owner is hit: revoke its wake-up, pass ownership on *)
+    apply mem_In in M. destruct (woken_shape _ I _ M) as (Eo & _ & W & Dz).
+    unfold is_owner. cbn. rewrite Eo, Nat.eqb_refl. rewrite set_ph_release.
+    destruct I as [A B C D1 D2 D3 D4 D5]. unfold pendq, inv_owner in *. rewrite W in *.
+    rewrite Eo in C. cbn in *. rewrite Nat.eqb_refl.
+    apply NoDup_cons_iff in B as [B1 B2]. apply StronglySorted_inv in D3 as [D3 D3'].
+    destruct C as [C1 _].
+    apply inv_release. constructor; cbn; auto.
+    + intros b. destruct (Nat.eq_dec b a) as [->|Nb].
+      * rewrite upd_same. split; [discriminate|tauto].
+      * rewrite upd_other by auto. rewrite A. intuition congruence.
+    + intros b k. destruct (Nat.eq_dec b a) as [->|Nb]; [rewrite upd_same; discriminate|].
+      rewrite upd_other by auto. intros Hb. apply Nb. eapply C1; eauto.
+  - (* an ordinary waiter is hit: it leaves the waiting list *)
+    apply mem_false in M.
+    destruct I as [A B C D1 D2 D3 D4 D5]. unfold pendq, inv_owner in *.
+    assert (Ha : In a (waiting s)).
+    { apply A in Pa. apply in_app_or in Pa as [|]; [contradiction|auto]. }
+    assert (No : is_owner s a = false).
+    { unfold is_owner. destruct (owner s) as [o|]; auto. destruct (Nat.eqb_spec o a) as [->|]; auto.
+      destruct C as [_ C]. rewrite Pa in C. destruct C as [W _]. rewrite W in M. cbn in M. tauto. }
+    unfold is_owner in *. cbn. rewrite No.
+    pose proof (NoDup_rem1 a _ B) as [B1 B2]. rewrite rem1_app_notin in B1, B2 by auto.
+    constructor; unfold pendq, inv_owner; cbn; auto.
+    + intros b. destruct (Nat.eq_dec b a) as [->|Nb].
+      * rewrite upd_same. split; [discriminate|tauto].
+      * rewrite upd_other by auto. rewrite A, !in_app_iff.
+        split; (intros [|]; [now left|right]); [apply In_rem1_neq | eapply In_rem1]; eauto.
+    + destruct (owner s) as [o|] eqn:Eo.
+      * destruct C as [C1 C2]. split.
+        -- intros b k. destruct (Nat.eq_dec b a) as [->|Nb]; [rewrite upd_same; discriminate|].
+           rewrite upd_other by auto. apply C1.
+        -- destruct (Nat.eqb_spec o a) as [|N]; [discriminate|]. rewrite upd_other by auto. exact C2.
+      * destruct C as (_ & C & _). rewrite C in Ha. destruct Ha.
+    + intros g b Hg Hb. apply D2; auto. rewrite in_app_iff in *. destruct Hb; auto.
+      right. eapply In_rem1; eauto.
+    + rewrite <- rem1_app_notin by auto. apply SS_map_rem1. auto.
+    + intros b Hb. apply D5. rewrite in_app_iff in *. destruct Hb; auto. right. eapply In_rem1; eauto.
+Qed.
+
+Lemma inv_step s t s' : inv s -> step s t = Some s' -> inv s'.
+Proof.
+  destruct t; eauto using inv_request, inv_wake, inv_foreign, inv_exit.
+Qed.
+
+Theorem reachable_inv s : reachable s -> inv s.
+Proof. induction 1; eauto using inv_init, inv_step. Qed.
+
+(* ---------- C09 theorems (all over `reachable`: every interleaving, every fault point) ---------- *)
+
+Definition inside (s : st) (a : aid) : Prop := exists n, ph s a = Inside n.
+
+Lemma inside_owner s : inv s -> forall a n, ph s a = Inside n ->
+  owner s = Some a /\ depth s = n /\ 1 <= n /\ woken s = [].
+Proof.
+  intros I a n Ha. pose proof (iC _ I) as C. unfold inv_owner in C. destruct (owner s) as [o|].
+  - destruct C as [C1 C2]. assert (a = o) as <- by (eapply C1; eauto). rewrite Ha in C2.
+    destruct C2 as (-> & ? & ? & _). auto.
+  - destruct C as (_ & _ & _ & C). exfalso. eapply C; eauto.
+Qed.
+
+(* at most one activity is inside the block, and it is the owner *)
+Theorem mutex s : reachable s -> forall a b n m,
+  ph s a = Inside n -> ph s b = Inside m -> a = b /\ owner s = Some a.
+Proof.
+  intros R a b n m Ha Hb. apply reachable_inv in R.
+  destruct (inside_owner _ R _ _ Ha) as (Oa & _). destruct (inside_owner _ R _ _ Hb) as (Ob & _).
+  split; congruence.
+Qed.
+
+(* the phase counter of the holder is the lock's depth *)
+Theorem reentrant_depth s : reachable s -> forall a n,
+  ph s a = Inside n -> owner s = Some a /\ depth s = n /\ 1 <= n.
+Proof. intros R a n Ha. apply reachable_inv in R. destruct (inside_owner _ R _ _ Ha); tauto. Qed.
+
+(* the owner may always re-enter, without waiting *)
+Theorem reenter_immediate s a n : reachable s -> ph s a = Inside n ->
+  exists s', step s (Request a) = Some s' /\ ph s' a = Inside (S n) /\ owner s' = Some a /\
+             depth s' = S n /\ waiting s' = waiting s.
+Proof.
+  intros R Ha. apply reachable_inv in R. destruct (inside_owner _ R _ _ Ha) as (O & D & _).
+  cbn. rewrite Ha, O, Nat.eqb_refl. eexists. split; [reflexivity|]. cbn. rewrite upd_same. auto.
+Qed.
+
+(* leaving an inner block keeps the lock *)
+Theorem exit_inner_keeps s a n s' : reachable s -> ph s a = Inside (S (S n)) ->
+  step s (Exit a) = Some s' ->
+  owner s' = Some a /\ ph s' a = Inside (S n) /\ depth s' = S n /\ waiting s' = waiting s.
+Proof.
+  intros R Ha H. apply reachable_inv in R. destruct (inside_owner _ R _ _ Ha) as (O & D & _).
+  cbn in H. rewrite Ha in H. cbn in H. rewrite D in H. cbn in H. injection H as <-. cbn.
+  rewrite upd_same. auto.
+Qed.
+
+(* leaving the outermost block - normally, by exception, cancellation, interruption or close - gives
+   the lock to the oldest waiter (whose wake-up is then in flight), or frees it *)
+Theorem exit_outermost_hands_off s a s' : reachable s -> ph s a = Inside 1 ->
+  step s (Exit a) = Some s' ->
+  ph s' a = Idle /\ owner s' = hd_error (waiting s) /\ depth s' = 0 /\
+  woken s' = match waiting s with [] => [] | b :: _ => [b] end /\ waiting s' = tl (waiting s).
+Proof.
+  intros R Ha H. apply reachable_inv in R. destruct (inside_owner _ R _ _ Ha) as (O & D & _ & W).
+  cbn in H. rewrite Ha in H. cbn in H. rewrite D in H. cbn in H. injection H as <-.
+  unfold release. cbn. rewrite W. destruct (waiting s); cbn; rewrite upd_same; auto.
+Qed.
+
+(* a signal that hits the designated owner before it was resumed passes ownership on *)
+Theorem foreign_designated_hands_off s a s' : reachable s -> ph s a = Waiting -> owner s = Some a ->
+  step s (DeliverForeign a) = Some s' ->
+  ph s' a = Idle /\ owner s' = hd_error (waiting s) /\ depth s' = 0 /\
+  woken s' = match waiting s with [] => [] | b :: _ => [b] end /\ waiting s' = tl (waiting s).
+Proof.
+  intros R Ha O H. apply reachable_inv in R. pose proof (iC _ R) as C. unfold inv_owner in C.
+  rewrite O, Ha in C. destruct C as (_ & W & Z).
+  cbn in H. rewrite Ha in H. injection H as <-. unfold unsubscribe. rewrite W. cbn.
+  rewrite Nat.eqb_refl. cbn. unfold is_owner. cbn. rewrite O, Nat.eqb_refl. unfold release. cbn.
+  destruct (waiting s); cbn; rewrite upd_same; auto.
+Qed.
+
+(* a signal that hits an ordinary waiter only withdraws its request *)
+Theorem foreign_waiter_leaves s a s' : reachable s -> ph s a = Waiting -> owner s <> Some a ->
+  step s (DeliverForeign a) = Some s' ->
+  ph s' a = Idle /\ owner s' = owner s /\ depth s' = depth s /\ woken s' = woken s /\
+  waiting s' = rem1 a (waiting s) /\ ~ In a (waiting s').
+Proof.
+  intros R Ha O H. apply reachable_inv in R.
+  assert (M : mem a (woken s) = false).
+  { apply mem_false. intros M. apply (woken_shape _ R) in M. tauto. }
+  assert (No : is_owner s a = false).
+  { unfold is_owner. destruct (owner s) as [o|]; auto. destruct (Nat.eqb_spec o a); congruence. }
+  cbn in H. rewrite Ha in H. injection H as <-. unfold unsubscribe. rewrite M.
+  unfold is_owner in *. cbn. rewrite No. cbn. rewrite upd_same. repeat split; auto.
+  pose proof (iB _ R) as B. unfold pendq in B. apply NoDup_rem1 with (a := a) in B as [_ B].
+  rewrite rem1_app_notin in B by (now apply mem_false). rewrite in_app_iff in B. tauto.
+Qed.
+
+(* the lock is free exactly when nobody holds it, is designated for it, or waits for it *)
+Theorem free_iff_idle s : reachable s -> (owner s = None <-> forall a, ph s a = Idle).
+Proof.
+  intros R. apply reachable_inv in R. pose proof (iC _ R) as C. unfold inv_owner in C. split.
+  - intros O a. rewrite O in C. destruct C as (_ & W1 & W2 & C). destruct (ph s a) eqn:Pa; auto.
+    + apply (iA _ R) in Pa. unfold pendq in Pa. rewrite W1, W2 in Pa. destruct Pa.
+    + exfalso. eapply C; eauto.
+  - intros Hi. destruct (owner s) as [o|]; auto. destruct C as [_ C]. rewrite Hi in C. destruct C.
+Qed.
+
+(* ... and whenever it is not free, its owner can move: it is inside (and can leave) or its wake-up is
+   in flight (and can be delivered) - ownership is never parked on an activity that will not run *)
+Theorem owner_can_move s o : reachable s -> owner s = Some o ->
+  (exists n, ph s o = Inside (S n) /\ step s (Exit o) <> None) \/
+  (ph s o = Waiting /\ In o (woken s) /\ step s (DeliverWake o) <> None).
+Proof.
+  intros R O. apply reachable_inv in R. pose proof (iC _ R) as C. unfold inv_owner in C.
+  rewrite O in C. destruct C as [_ C]. destruct (ph s o) as [| |n] eqn:Po; [contradiction| |].
+  - right. destruct C as [W _]. repeat split; auto.
+    + rewrite W. now left.
+    + cbn. rewrite Po, W. cbn. rewrite Nat.eqb_refl. discriminate.
+  - left. destruct n as [|n]; [lia|]. exists n. split; auto. cbn. rewrite Po. discriminate.
+Qed.
+
+(* every waiter is either queued or has its wake-up in flight, never both: `__unsubscribe__`
+   (revoke if scheduled, else list.remove) always finds what it looks for *)
+Theorem unsubscribe_safe s a : reachable s -> ph s a = Waiting ->
+  (In a (woken s) /\ ~ In a (waiting s)) \/ (In a (waiting s) /\ ~ In a (woken s)).
+Proof.
+  intros R Ha. apply reachable_inv in R. apply (iA _ R) in Ha. pose proof (iB _ R) as B.
+  unfold pendq in *. apply in_app_or in Ha as [Ha|Ha]; [left|right]; split; auto; intros Hb.
+  - apply in_split in Ha as (l1 & l2 & E). rewrite E, <- app_assoc in B. cbn in B.
+    apply NoDup_remove_2 in B. apply B. rewrite !in_app_iff. auto.
+  - apply in_split in Hb as (l1 & l2 & E). rewrite E, <- app_assoc in B. cbn in B.
+    apply NoDup_remove_2 in B. apply B. rewrite !in_app_iff. auto.
+Qed.
+
+(* `available` asked by a running activity: true exactly when the lock is free or held by it *)
+Theorem available_spec s a : reachable s -> ph s a <> Waiting ->
+  (available s a = true <-> (forall b, ph s b = Idle) \/ inside s a).
+Proof.
+  intros R Ha. pose proof (free_iff_idle _ R) as F. apply reachable_inv in R.
+  unfold available. destruct (owner s) as [o|] eqn:O.
+  - split.
+    + intros E. apply Nat.eqb_eq in E. subst o. right. pose proof (iC _ R) as C. unfold inv_owner in C.
+      rewrite O in C. destruct C as [_ C]. destruct (ph s a) eqn:Pa; [contradiction|congruence|].
+      eexists; eauto.
+    + intros [Hi|[n Hn]].
+      * apply F in Hi. discriminate.
+      * destruct (inside_owner _ R _ _ Hn) as (O' & _). rewrite O in O'. injection O' as ->.
+        apply Nat.eqb_refl.
+  - split; auto. intros _. left. apply F. auto.
+Qed.
+
+(* `available` predicts whether a request would have to wait *)
+Theorem available_predicts_request s a s' : reachable s -> step s (Request a) = Some s' ->
+  (available s a = true -> inside s' a) /\ (available s a = false -> ph s' a = Waiting).
+Proof.
+  intros R H. cbn in H. unfold available, inside.
+  destruct (ph s a) eqn:Pa; try discriminate; destruct (owner s) as [o|] eqn:O; try discriminate.
+  - destruct (Nat.eqb_spec o a); [discriminate|]. injection H as <-. cbn. rewrite upd_same.
+    split; [discriminate|auto].
+  - injection H as <-. cbn. rewrite upd_same. split; eauto. discriminate.
+  - destruct (Nat.eqb_spec o a); [|discriminate]. injection H as <-. cbn. rewrite upd_same.
+    split; eauto. discriminate.
+Qed.
+
+(* FIFO.  Every outermost request draws the next ticket (ticket_fresh); `grants` logs the tickets in
+   the order in which activities got inside (grants_log).  The log is strictly increasing, and every
+   request still outstanding (designated owner, then the waiting list in list order) is younger than
+   every grant and they are in ticket order among themselves: grants happen in request order among
+   the requests that were not withdrawn. *)
+Theorem fifo_grant s : reachable s ->
+  StronglySorted lt (grants s ++ map (tick s) (pendq s)) /\
+  Forall (fun t => t < ntick s) (grants s ++ map (tick s) (pendq s)).
+Proof.
+  intros R. apply reachable_inv in R. destruct R as [A B C D1 D2 D3 D4 D5]. split.
+  - apply SS_app. repeat split; auto. intros x y Hx Hy. apply in_map_iff in Hy as (b & <- & Hb). auto.
+  - apply Forall_forall. intros x Hx. apply in_app_or in Hx as [Hx|Hx]; auto.
+    apply in_map_iff in Hx as (b & <- & Hb). auto.
+Qed.
+
+Theorem ticket_fresh s a s' : step s (Request a) = Some s' -> ph s a = Idle ->
+  tick s' a = ntick s /\ ntick s' = S (ntick s) /\ (forall b, b <> a -> tick s' b = tick s b).
+Proof.
+  intros H Pa. cbn in H. rewrite Pa in H. destruct (owner s) as [o|].
+  - destruct (Nat.eqb o a); [discriminate|]. injection H as <-. cbn. rewrite upd_same.
+    repeat split; auto. intros. apply upd_other; auto.
+  - injection H as <-. cbn. rewrite upd_same. repeat split; auto. intros. apply upd_other; auto.
+Qed.
+
+Lemma grants_release s : grants (release s) = grants s.
+Proof. unfold release. destruct (waiting s); reflexivity. Qed.
+
+Lemma grants_unsubscribe a s : grants (unsubscribe a s) = grants s.
+Proof. unfold unsubscribe. destruct (mem a (woken s)); reflexivity. Qed.
+
+Definition gets_inside (s s' : st) (a : aid) : Prop :=
+  (forall n, ph s a <> Inside n) /\ exists n, ph s' a = Inside n.
+
+(* a grant always goes to the OLDEST outstanding request (or to a fresh request on a lock nobody
+   waits for), it is logged, and nothing else is ever logged *)
+Theorem grant_is_oldest s t s' : reachable s -> step s t = Some s' ->
+  (gets_inside s s' (actor t) ->
+     grants s' = grants s ++ [tick s' (actor t)] /\
+     ((pendq s = actor t :: pendq s') \/ (pendq s = [] /\ pendq s' = [] /\ t = Request (actor t)))) /\
+  (~ gets_inside s s' (actor t) -> grants s' = grants s).
+Proof.
+  intros R H. apply reachable_inv in R. unfold gets_inside. destruct t as [a|a|a|a]; cbn [actor].
+  - cbn in H. destruct (ph s a) eqn:Pa; try discriminate; destruct (owner s) as [o|] eqn:O;
+      try discriminate.
+    + destruct (Nat.eqb_spec o a); [discriminate|]. injection H as <-. cbn. rewrite upd_same. split; auto.
+      intros [_ [k Hk]]. discriminate.
+    + injection H as <-. cbn. rewrite !upd_same. pose proof (iC _ R) as C. unfold inv_owner in C.
+      rewrite O in C. destruct C as (_ & W1 & W2 & _). unfold pendq. cbn. rewrite W1, W2. split; auto.
+      intros N. exfalso. apply N. split; [intros; discriminate | eauto].
+    + destruct (Nat.eqb_spec o a); [|discriminate]. injection H as <-. cbn. split; auto.
+      intros [N _]. exfalso. eapply N; eauto.
+  - cbn in H. destruct (ph s a) eqn:Pa; try discriminate.
+    destruct (mem a (woken s)) eqn:M; try discriminate. pose proof M as M'. apply mem_In in M'.
+    destruct (woken_shape _ R _ M') as (_ & _ & W & _). unfold unsubscribe in H. rewrite M in H.
+    cbn in H. injection H as <-. unfold pendq. cbn. rewrite W. cbn. rewrite Nat.eqb_refl, upd_same.
+    split; auto. intros N. exfalso. apply N. split; [intros; discriminate | eauto].
+  - assert (ph s' a = Idle).
+    { cbn in H. destruct (ph s a); try discriminate. injection H as <-. cbn. apply upd_same. }
+    assert (grants s' = grants s).
+    { cbn in H. destruct (ph s a); try discriminate. injection H as <-. cbn.
+      destruct (is_owner _ a); rewrite ?grants_release; apply grants_unsubscribe. }
+    split; auto. intros [_ [k Hk]]. congruence.
+  - cbn in H. destruct (ph s a) as [| |[|n]] eqn:Pa; try discriminate.
+    assert (grants s' = grants s).
+    { injection H as <-. destruct (Nat.eqb _ 0); rewrite ?grants_release; auto. }
+    split; auto. intros [N _]. exfalso. eapply N; eauto.
+Qed.
+
+(* the environment discipline is the only thing that disables a transition: whatever the code could
+   do next at the activity's suspension point is enabled in every reachable state *)
+Theorem enabled_by_phase s a : reachable s ->
+  match ph s a with
+  | Idle => step s (Request a) <> None
+  | Waiting => step s (DeliverForeign a) <> None
+  | Inside n => step s (Request a) <> None /\ step s (Exit a) <> None
+  end.
+Proof.
+  intros R. apply reachable_inv in R. destruct (ph s a) as [| |n] eqn:Pa.
+  - cbn. rewrite Pa. destruct (owner s) as [o|] eqn:O; [|discriminate].
+    destruct (Nat.eqb_spec o a) as [->|]; [|discriminate]. exfalso.
+    pose proof (iC _ R) as C. unfold inv_owner in C. rewrite O, Pa in C. tauto.
+  - cbn. rewrite Pa. discriminate.
+  - destruct (inside_owner _ R _ _ Pa) as (O & _ & L & _). cbn. rewrite Pa, O, Nat.eqb_refl.
+    destruct n; [lia|]. split; discriminate.
+Qed.
+
+(* replay = run: a log accepted by `replay` is an execution of the protocol from `init`, hence every
+   state it passes through is reachable and all theorems above apply to it *)
+Lemma run_reachable l : forall s s', reachable s -> run s l = Some s' -> reachable s'.
+Proof.
+  induction l as [|t r IH]; cbn; intros s s' R H.
+  - injection H as <-. auto.
+  - destruct (step s t) eqn:E; [|discriminate]. eapply IH; [|eauto]. econstructor; eauto.
+Qed.
+
+Example ex_handoff :
+  option_map project
+    (run init [Request 0; Request 1; Request 2; Request 0; DeliverForeign 1; Exit 0; Exit 0])
+  = Some (3, 0, [], [2]).
+Proof. reflexivity. Qed.
